@@ -5,16 +5,17 @@
    modelled: after the repair of D5 no result depends on them (C13 is the theorem). *)
 From Coq Require Import List Ascii Arith Bool.
 From GT Require Import Base.GoStr Md.Parser Tree.Tree Tree.Gen Tree.Grower
-  Out.Spreader Out.Formatted Out.Walker Api.Simple.
+  Out.Spreader Out.Formatted Out.Walker Api.Simple Fs.FsModel Fs.Mkdir Fs.Verify.
 Import ListNotations.
 
 Definition handle := (nat * list nat)%type.
 
 Record world := {
   w_trees : list tree;        (* arena: tree id = position *)
-  w_handles : list handle     (* every NewRoot / Add call returns one, in call order *)
+  w_handles : list handle;    (* every NewRoot / Add call returns one, in call order *)
+  w_fs : fsmap                (* the file system below the working directory *)
 }.
-Definition world0 := {| w_trees := []; w_handles := [] |}.
+Definition world0 := {| w_trees := []; w_handles := []; w_fs := [] |}.
 
 Inductive pop :=
 | PNewRoot (nm : str)
@@ -23,12 +24,18 @@ Inductive pop :=
 | PWalk (h : option nat) (bf : bfmt) (fail : option nat)
 | PWalkIter (h : option nat) (bf : bfmt) (brk : option nat)
 | PMdOutput (c : cfg) (doc : str)
-| PMdWalk (bf : bfmt) (fail : option nat) (doc : str).
+| PMdWalk (bf : bfmt) (fail : option nat) (doc : str)
+| PFsInit (entries : fsmap)
+| PMkdir (h : option nat) (c : cfg) (dir : str)
+| PVerify (h : option nat) (c : cfg) (strict : bool) (dir : str)
+| PMdMkdir (c : cfg) (dir : str) (doc : str)
+| PMdVerify (c : cfg) (strict : bool) (dir : str) (doc : str).
 
 Inductive pout :=
 | OHandle (h : nat)
 | OOutput (cs : list chunk) (r : res unit)
 | OWalk (vs : list visit) (r : res unit)
+| OFs (cs : list chunk) (r : res unit) (f : fsmap)
 | OBad.
 
 (* validateTreeRoot *)
@@ -71,7 +78,7 @@ Definition pstep (w : world) (o : pop) : world * pout :=
   match o with
   | PNewRoot nm =>
       ({| w_trees := w_trees w ++ [T nm []];
-          w_handles := w_handles w ++ [(List.length (w_trees w), [])] |},
+          w_handles := w_handles w ++ [(List.length (w_trees w), [])]; w_fs := w_fs w |},
        OHandle (List.length (w_handles w)))
   | PAdd h nm =>
       match nth_error (w_handles w) h with
@@ -84,7 +91,7 @@ Definition pstep (w : world) (o : pop) : world * pout :=
               | None => (w, OBad)
               | Some (t', path') =>
                   ({| w_trees := replace_nth tid t' (w_trees w);
-                      w_handles := w_handles w ++ [(tid, path')] |},
+                      w_handles := w_handles w ++ [(tid, path')]; w_fs := w_fs w |},
                    OHandle (List.length (w_handles w)))
               end
           end
@@ -112,6 +119,37 @@ Definition pstep (w : world) (o : pop) : world * pout :=
   | PMdWalk bf fail doc =>
       let '(vs, r) := walk_md {| c_bf := bf; c_enc := EncDefault; c_dry := false; c_exts := []; c_noiter := false |}
                               (eqb_opt fail) doc in (w, OWalk vs r)
+  | PFsInit es =>
+      let w' := {| w_trees := w_trees w; w_handles := w_handles w; w_fs := w_fs w ++ es |} in
+      (w', OFs [] (Ok tt) (w_fs w'))
+  | PMkdir h c dir =>
+      match root_of w h with
+      | Ok t =>
+          let '(f', cs, r) := mkdir_trees c dir (w_fs w) [t] in
+          ({| w_trees := w_trees w; w_handles := w_handles w; w_fs := f' |}, OFs cs r f')
+      | Err e => (w, OFs [] (Err e) (w_fs w))
+      | Panic => (w, OFs [] Panic (w_fs w))
+      end
+  | PVerify h c strict dir =>
+      match root_of w h with
+      | Ok t => (w, OFs [] (verify_trees c strict dir (w_fs w) [t]) (w_fs w))
+      | Err e => (w, OFs [] (Err e) (w_fs w))
+      | Panic => (w, OFs [] Panic (w_fs w))
+      end
+  | PMdMkdir c dir doc =>
+      match gen_all doc with
+      | Ok ts =>
+          let '(f', cs, r) := mkdir_trees c dir (w_fs w) ts in
+          ({| w_trees := w_trees w; w_handles := w_handles w; w_fs := f' |}, OFs cs r f')
+      | Err e => (w, OFs [] (Err e) (w_fs w))
+      | Panic => (w, OFs [] Panic (w_fs w))
+      end
+  | PMdVerify c strict dir doc =>
+      match gen_all doc with
+      | Ok ts => (w, OFs [] (verify_trees c strict dir (w_fs w) ts) (w_fs w))
+      | Err e => (w, OFs [] (Err e) (w_fs w))
+      | Panic => (w, OFs [] Panic (w_fs w))
+      end
   end.
 
 Fixpoint prun (w : world) (ops : list pop) : list pout :=
